@@ -8,8 +8,11 @@ import traceback
 
 ROOT = os.path.dirname(os.path.dirname(os.path.abspath(__file__)))
 REPO = os.environ.get('VERIF_REPO', '/repo')
-EVIDENCE_DIR = os.path.join(ROOT, 'evidence')
-REPLAY_DIR = os.path.join(ROOT, 'replays')
+# VERIF_OUT redirects evidence and replay files (used when a check is pointed at a scratch copy with VERIF_REPO, so that
+# a mutation / seeded-change run never overwrites the evidence of the real tree)
+_OUT = os.environ.get('VERIF_OUT') or ROOT
+EVIDENCE_DIR = os.path.join(_OUT, 'evidence')
+REPLAY_DIR = os.path.join(_OUT, 'replays')
 FINDINGS = os.path.join(ROOT, 'known_findings.json')
 
 
